@@ -20,7 +20,7 @@ def one(d):
     ev = os.path.join(scratch, '_ev')
     for q in PROPS:
       c = subprocess.run([os.path.join(ROOT, 'check'), q, '--repo', scratch, '--evidence-dir', ev], capture_output=True, text=True)
-      if c.returncode != 0:
+      if c.returncode != 0 or 'NOT-DECIDED' in c.stdout:
         rules = []
         for l in c.stdout.splitlines():
           mm = re.match(r'\s+(R-[\w.\-]+) (\S+):(\d+) (\S+)', l)
